@@ -1428,7 +1428,14 @@ class UnitDatabase(Singleton):
         if exp == 1 and zero == 0.0:
             # no offset: the plain conversion is the scaling
             return self.Convert(quantity_type, from_unit, to_unit, value)
-        ratio = self.Convert(quantity_type, from_unit, to_unit, 1.0) - zero
+        if zero == 0.0:
+            ratio = self.Convert(quantity_type, from_unit, to_unit, 1.0)
+        else:
+            # an offset swallows a ratio much smaller than itself (pPa -> bar(g) would give 0.0), so
+            # divide the increments the two units have in the base unit instead
+            from_tobase = self.GetInfo(quantity_type, from_unit).tobase
+            to_tobase = self.GetInfo(quantity_type, to_unit).tobase
+            ratio = (from_tobase(1.0) - from_tobase(0.0)) / (to_tobase(1.0) - to_tobase(0.0))
         factor = ratio**exp
         if isinstance(value, (list, tuple)):
             return type(value)(v * factor for v in value)
